@@ -104,11 +104,17 @@ class UpdateReferences:
               # the real link is written in the complement form of the
               # placeholder (whose overlap may be unspecified)
               elem.orient = gfapy.invert(elem.orient)
-            elif oldref.overlap and newref.overlap and \
-                oldref.overlap != newref.overlap:
+            else:
               # a link from an end to the same end: the two forms differ
-              # in the overlap only
-              elem.orient = gfapy.invert(elem.orient)
+              # in the overlap only; the overlap the path asks for decides
+              required = oldref.overlap
+              if self.record_type == "P":
+                ovs = self.overlaps
+                if len(ovs) > idx and not self._undef_overlaps():
+                  required = ovs[idx]
+              if required and newref.overlap and \
+                  required != newref.overlap:
+                elem.orient = gfapy.invert(elem.orient)
           elem.line = newref
           found = True
     if newref is None and found:
